@@ -174,7 +174,14 @@ def observe(ver):
 class C02(Prop):
     id = "C02"
     lean_modules = ["PkgProofs.Props.C02"]
-    theorems = ["C02.canon_passthrough", "C02.canon_nostrip_eq_str"]
+    theorems = [
+        "C02.scan_str", "C02.scan_wf", "C02.str_inj", "C02.str_idempotent", "C02.scan_public", "C02.scan_base",
+        "C02.canon_obj", "C02.canon_arms_agree", "C02.canon_passthrough", "C02.canon_nostrip_eq_str",
+        "C02.canon_never_raises", "C02.canon_obj_never_raises", "C02.canon_value", "C02.canon_parses_back",
+        "C02.canon_idem", "C02.canon_strip_after_nostrip", "C02.canon_complete_invariant",
+        "C02.canon_complete_invariant_str", "C02.canon_nostrip_invariant", "C02.str_parts", "C02.flags",
+        "C02.major_minor_micro", "V.scan_str", "V.scan_wf", "V.cmpkey_eq_iff",
+    ]
     generated = ["VersionRx"]
     rule = ("strings = every alternate spelling (case, separators incl. the one after an implicit number, word "
             "spellings, leading zeros, v, white space, implicit post) of structures drawn with near neighbours "
